@@ -5,13 +5,13 @@
 package harness
 
 import (
-	"time"
 	"encoding/json"
 	"fmt"
 	"math/rand"
 	"os"
 	"testing"
 	"testing/synctest"
+	"time"
 )
 
 // Job is what the parent (./check) hands to one child process.
